@@ -77,33 +77,41 @@ def linear_streams(conn):
 
 
 class OneKeyOracle:
-    """_closed_streams for ONE queried id: whether the id is remembered and how it was
-    closed are solver choices.  Insertions are recorded (so 'no growth' can be asserted)."""
+    """_closed_streams as an oracle: whether the queried id `key` is remembered and how it
+    was closed are solver choices (has, value); every OTHER id answers with an independent
+    pair (ohas, ovalue), so code that looks up the wrong id is exposed.  Insertions are
+    recorded (so 'no growth' can be asserted)."""
 
-    def __init__(self, has, value):
+    def __init__(self, has, value, key=None, ohas=False, ovalue=None):
+        self.key = key
         self.has = has
         self.value = value
+        self.ohas = ohas
+        self.ovalue = ovalue
         self.inserted = []
 
-    def __contains__(self, key):
-        for k, _v in self.inserted:
-            if k == key:
-                return True
-        return bool(self.has)
-
-    def __getitem__(self, key):
+    def _lookup(self, key):
         for k, v in self.inserted:
             if k == key:
-                return v
-        if self.has:
-            return self.value
-        raise KeyError(key)
+                return True, v
+        if self.key is None or key == self.key:
+            return bool(self.has), self.value
+        return bool(self.ohas), self.ovalue
+
+    def __contains__(self, key):
+        return self._lookup(key)[0]
+
+    def __getitem__(self, key):
+        has, v = self._lookup(key)
+        if not has:
+            raise KeyError(key)
+        return v
 
     def __setitem__(self, key, value):
         self.inserted.append((key, value))
 
     def __len__(self):
-        return len(self.inserted) + (1 if self.has else 0)
+        return len(self.inserted) + (1 if self.has else 0) + (1 if self.ohas else 0)
 
 
 def scan_streams_usage():
